@@ -1,6 +1,9 @@
 mod util;
 mod arr;
 mod c01;
+mod c06;
+mod c19;
+mod hooks;
 mod c08;
 mod c09;
 mod c10;
@@ -11,7 +14,10 @@ use util::*;
 #[derive(Default)]
 struct Ctx {
     arr: Option<arr::ArrCtx>,
+    c06: c06::C06State,
+    dtype: String,
     c08: Option<c08::StoreCtx>,
+    c19: Option<c19::C19Ctx>,
 }
 
 fn exec_line(ctx: &mut Ctx, line: &str) -> String {
@@ -19,17 +25,33 @@ fn exec_line(ctx: &mut Ctx, line: &str) -> String {
     let prop = toks.next().unwrap_or("");
     let second = toks.next().unwrap_or("");
     match prop {
-        "c01" => {
+        "c01" | "c06" => {
             let (v, m) = parse_line(line);
             if second == "cfg" {
                 ctx.arr = None;
+                ctx.c06 = c06::C06State::default();
+                ctx.dtype = m.get("dtype").cloned().unwrap_or_default();
                 match util::guarded_res(|| arr::open_ctx(&m)) {
                     Ok(c) => { ctx.arr = Some(c); "ok".into() }
                     Err(e) => format!("err-open {}", e.replace(' ', "_")),
                 }
             } else {
                 let verb = v.get(2).cloned().unwrap_or_default();
-                match ctx.arr.as_mut() { Some(c) => arr::exec_op(c, &verb, &m), None => "skip".into() }
+                let dtype = ctx.dtype.clone();
+                match ctx.arr.as_mut() {
+                    Some(c) => if prop == "c06" { c06::exec_op(c, &mut ctx.c06, &verb, &m, &dtype) } else { arr::exec_op(c, &verb, &m) },
+                    None => "skip".into(),
+                }
+            }
+        }
+        "c19" => {
+            let (v, m) = parse_line(line);
+            if second == "cfg" {
+                ctx.c19 = None;
+                match util::guarded_res(|| c19::open_cfg(&m)) { Ok(c) => { ctx.c19 = Some(c); "ok".into() } Err(e) => format!("err-open {}", e.replace(' ', "_")) }
+            } else {
+                let verb = v.get(2).cloned().unwrap_or_default();
+                match ctx.c19.as_ref() { Some(c) => c19::exec_op(c, &verb, &m), None => "skip".into() }
             }
         }
         "c08" => {
@@ -56,12 +78,15 @@ fn main() {
         std::process::exit(2);
     }
     silence_panics();
+    hooks::install();
     let a = parse_args(&argv[1..]);
     let lines: Vec<String> = match argv[0].as_str() {
         "run" => {
             let prop = a.rest.get(0).cloned().unwrap_or_default();
             match prop.as_str() {
                 "c01" => c01::generate(&a.tier, a.seed),
+                "c06" => c06::generate(&a.tier, a.seed),
+                "c19" => c19::generate(&a.tier, a.seed),
                 "c08" => c08::generate(&a.tier, a.seed),
                 "c09" => c09::generate(&a.tier, a.seed),
                 "c10" => c10::generate(&a.tier, a.seed),
